@@ -55,7 +55,8 @@ def make_ruleset(rng, path):
     lists = {}
     terminals = {}
     vals = {'A2': ['ab', 'cd', 'ef', 'gh', 'ij', 'kl', 'mn', 'op', 'qr'], 'C2': ['LL', 'UL', 'LU', 'UU'],
-            'D1': list('0123456789'), 'O1': list('!@#$%^&*('), 'A3': ['cat', 'dog', 'fox', 'owl', 'pig', 'rat', 'bat', 'ant', 'bee']}
+            'D1': list('0123456789'), 'O1': list(' !@#$%^&*'),        # a blank is a symbol like any other ('tiger lily' trains O1 = ' ')
+            'A3': ['cat', 'dog', 'fox', 'owl', 'pig', 'rat', 'bat', 'ant', 'bee']}
     for t in ('A2', 'C2', 'D1', 'O1', 'A3'):
         kmax = 2 if t == 'C2' else 3
         while True:
@@ -82,6 +83,27 @@ def make_ruleset(rng, path):
     base = list(zip(structs, [w / D for w in ws]))
     rulesets.write_ruleset(path, terminals, base, omen_prob=[(1, 0.5), (2, 0.25)], omen_keyspace=[(1, 3), (2, 3)])
     return {'lists': lists, 'base': [[s, w] for s, w in zip(structs, ws)], 'terminals': terminals}
+
+
+def lang_of_files(desc):
+    """the non-Markov language spelled out by the rule files as written (independent of the guesser's loader)"""
+    import itertools
+    import re
+    lang = set()
+    T = desc['terminals']
+    for struct, _ in desc['base']:
+        if struct == 'M':
+            continue
+        slots = []
+        for m in re.finditer(r'([A-Z])([0-9]*)', struct):
+            t = m.group(0)
+            if m.group(1) == 'A':
+                slots.append([''.join(c.upper() if k == 'U' else c for c, k in zip(w, mask))
+                              for w, _ in T[t] for mask, _ in T['C' + m.group(2)]])
+            else:
+                slots.append([v for v, _ in T[t]])
+        lang.update(''.join(x) for x in itertools.product(*slots))
+    return lang
 
 
 def reps_of(struct):
@@ -270,12 +292,7 @@ def main(pid, tier, seed):
     from lib_guesser.honeyword_session import HoneywordSession
     runs = []
     for d, desc in cli_dirs:
-        pcfg = ptq.load_pcfg(d)
-        lang = set()
-        for b, pt in expand.all_pts(pcfg):
-            if pt[0][0] != 'M':
-                lines, n = expand.expand_real(pcfg, pt)
-                lang.update(lines)
+        lang = lang_of_files(desc)
         for mode in ('honeywords', 'random_walk'):
             for N in (1, 7, 40):
                 outs = []
@@ -312,13 +329,15 @@ def main(pid, tier, seed):
     with ThreadPoolExecutor(8) as ex:
         res = list(ex.map(runcli, jobs))
     for (k, mode, N, desc), outs in zip(jobs, res):
+        lang = lang_of_files(desc)
         ids = {}
         I = lambda x: ids.setdefault(x, len(ids) + 1)
         tid += 1
         wtraces.append({'tid': tid, 'kind': 'run', 'n': N, 'lines': [I(x) for x in outs[0]],
                         'lines2': [I(x) for x in (outs[1] if mode == 'random_walk' else outs[0])],
-                        'inlang': [True for x in outs[0]], 'markov': [False for x in outs[0]], 'ended': True})
-        meta[tid] = {'mode': mode, 'N': N, 'got': len(outs[0]), 'ruleset': desc['base'], 'via': 'pcfg_guesser.py subprocess'}
+                        'inlang': [x in lang for x in outs[0]], 'markov': [False for x in outs[0]], 'ended': True})
+        meta[tid] = {'mode': mode, 'N': N, 'got': len(outs[0]), 'ruleset': desc['base'], 'via': 'pcfg_guesser.py subprocess',
+                     'not_in_the_language_of_the_files': [x for x in outs[0] if x not in lang][:5]}
     # a ruleset whose ONLY base structure is the Markov one (what the trainer writes for coverage 0): nothing can be drawn,
     # the session must end (HoneySession.tla: Terminates); --limit N then yields no word
     monly = os.path.join(work, 'monly')
